@@ -3,4 +3,4 @@ From Clip Require Import base.Geom base.Winding model.Owner model.TreeCheck.
 Require Import ExtrOcamlBasic.
 Extraction Language OCaml.
 Extraction "m.ml" apply_op run_ops get_real is_valid_owner set_owner move_splits check_split_owner build_tree preorder parent_of fuel_of
-  tree_check rot_eqb multiset_eqb strictly_inside inside_or_on area2 area2_paths wn on_path level_of is_hole_of_level.
+  tree_check fully_contains rot_eqb multiset_eqb strictly_inside inside_or_on area2 area2_paths wn on_path level_of is_hole_of_level.
